@@ -34,7 +34,16 @@ static void put(std::string& k, const void* p) { auto v = reinterpret_cast<std::
 static void put(std::string& k, std::uintptr_t v) { k.append(reinterpret_cast<const char*>(&v), sizeof v); }
 static void puts(std::string& k, const std::string& s) { put(k, std::uintptr_t(s.size())); k += s; }
 
+// A sequence object owned by the client, refilled for every request: the same object (same address) spells a different
+// request each time.  Only used to ask again for a product / sum that exists, so the Lexicon has no reason to keep it.
+struct ScratchSeq final : Sequence<Type> {
+   std::vector<const Type*> v;
+   Index size() const override { return v.size(); }
+   const Type& get(Index i) const override { return *v.at(i); }
+};
+
 struct Harness {
+   ScratchSeq scratch;
    impl::Lexicon lex;
    impl::Translation_unit unit { lex };
    Rng rng;
@@ -256,7 +265,11 @@ struct Harness {
          const Type* res = nullptr;
          // entry point: Warehouse (copies) or a Lexicon-owned sequence of an existing node with this key
          auto it = fwd[r.ctor].find(key);
-         if (it != fwd[r.ctor].end() && (variant & 1)) {
+         if (it != fwd[r.ctor].end() && (variant & 3) == 3) {
+            scratch.v.assign(r.seq.begin(), r.seq.end());
+            res = prod ? static_cast<const Type*>(&lex.get_product(scratch)) : static_cast<const Type*>(&lex.get_sum(scratch));
+            ctx().count("seq_entry_point_client_scratch_sequence");
+         } else if (it != fwd[r.ctor].end() && (variant & 1)) {
             if (prod) { auto& ex = *static_cast<const Product*>(static_cast<const Type*>(it->second)); res = &lex.get_product(ex.elements()); }
             else { auto& ex = *static_cast<const Sum*>(static_cast<const Type*>(it->second)); res = &lex.get_sum(ex.elements()); }
             ctx().count("seq_entry_point_sequence");
@@ -479,9 +492,9 @@ static void body(Ctx& C)
           "explicit default noexcept, Warehouse vs Sequence entry point); every answer is checked against a key->node model; "
           "live tables are validated (red-black shape, key order, size == distinct keys) every 4096 requests");
    C.assume("node identity (address) is the observable; keys use addresses for equality only");
-   C.assume("get_product/get_sum(const Sequence&) are only given sequences owned by the Lexicon");
+   C.assume("get_product/get_sum(const Sequence&) are given sequences owned by the Lexicon, or - only for a product/sum that already exists - one client-owned sequence object refilled for every such request");
    for (int c = 0; c < NCTOR; ++c) { C.need(std::string("distinct_keys:") + ctor_name[c]); C.need(std::string("re_requests:") + ctor_name[c]); }
-   C.need("seq_entry_point_sequence"); C.need("seq_entry_point_warehouse"); C.need("table_validations"); C.need("successive_lexicons_in_one_slot"); C.need("as_type_over_an_as_type_with_transfer"); C.need("mirror_requests");
+   C.need("seq_entry_point_sequence"); C.need("seq_entry_point_client_scratch_sequence"); C.need("seq_entry_point_warehouse"); C.need("table_validations"); C.need("successive_lexicons_in_one_slot"); C.need("as_type_over_an_as_type_with_transfer"); C.need("mirror_requests");
    for (int i = 0; i < 4; ++i) C.need(std::string("fn_overload_") + std::to_string(i));
 
    const int histories = C.thorough ? 12 : 3;
